@@ -31,8 +31,9 @@ for d, _dirs, files in os.walk(os.path.join(REPO, 'cassandra')):
                             tab[q] = loc
                         fl.append(q)
                         cm = canon.compares_of(ch)
-                        if cm:
-                            tabc[q] = cm
+                        ts = canon.tests_of(ch)
+                        if cm or ts:
+                            tabc[q] = {'cmp': cm, 'tests': ts}
                 elif isinstance(ch, (ast.If, ast.Try, ast.With, ast.For, ast.While, ast.ExceptHandler)):
                     visit(ch, prefix)
         visit(tree, '')
